@@ -293,6 +293,45 @@ func (c *cmp) dyn(path string, wv, gv reflect.Value) error {
 		}
 		it := wv.MapRange()
 		for it.Next() {
+			if isPointerKey(it.Key()) {
+				// a key that is an object: the result's key is the object paired with it earlier (the key travelled
+				// as a back-reference), or an unpaired object key of equal content and value
+				wp := keyPointer(it.Key())
+				kp := fmt.Sprintf("%s[object key]", path)
+				var gk, g reflect.Value
+				git := gv.MapRange()
+				for git.Next() {
+					if !isPointerKey(git.Key()) {
+						continue
+					}
+					gp := keyPointer(git.Key())
+					if paired, ok := c.w2g[wp]; ok {
+						if paired == gp {
+							gk, g = git.Key(), git.Value()
+							break
+						}
+						continue
+					}
+					if _, taken := c.g2w[gp]; taken {
+						continue
+					}
+					sub := &cmp{nameMap: c.nameMap, w2g: map[unsafe.Pointer]unsafe.Pointer{}, g2w: map[unsafe.Pointer]unsafe.Pointer{}}
+					if sub.dyn(kp, it.Key(), git.Key()) == nil && sub.dyn(kp, it.Value(), git.Value()) == nil {
+						gk, g = git.Key(), git.Value()
+						break
+					}
+				}
+				if !gk.IsValid() {
+					return fail(kp, "no key of the result is the object %s (paired earlier: %v)", short(it.Key()), c.w2g[wp] != nil)
+				}
+				if err := c.dyn(kp, it.Key(), gk); err != nil {
+					return err
+				}
+				if err := c.dyn(kp+" value", it.Value(), g); err != nil {
+					return err
+				}
+				continue
+			}
 			ck, err := canonKey(it.Key())
 			if err != nil {
 				return fail(path, "%v", err)
